@@ -1,7 +1,7 @@
 (** Entry points for the extracted model: decoding of case files and encoding of
     observations, both over a generic tree type so that the OCaml driver only parses and
     prints trees. Nothing here is used by the theorems. *)
-From MowCli Require Import Base Lexer Parser Nfa Matchers Apply Values Flow Cmd RefSem.
+From MowCli Require Import Base Lexer Parser Nfa Matchers Apply Values Flow Cmd RefSem View.
 
 Inductive sx := SA (s : str) | SL (l : list sx).
 
@@ -233,9 +233,7 @@ Definition e_run (x : sx) : sx :=
 
 (** * Reference semantics as an oracle *)
 
-Definition rdecl_of (opts : list container) : rdecl :=
-  let D := optinfo_of opts in
-  mkRD (oi_lookup D) (oi_isbool D) (oi_fromenv D).
+Definition rdecl_of (opts : list container) : rdecl := View.rdecl_of (optinfo_of opts).
 
 Definition enc_verdict (v : verdict) : sx :=
   SA (match v with Yes => lit "yes" | No => lit "no" | Unclaimed => lit "unclaimed" end).
@@ -290,6 +288,37 @@ Definition e_sentence (x : sx) : sx :=
     end
   end.
 
+(** the symbol views of several command lines under one command (hypotheses of the C10 / C11
+    theorems): (floats env decls spec (argv ...)) -> (status sane no-dd-graph (view ...)) *)
+Definition enc_vs (s : vs) : sx :=
+  match s with
+  | VO o v => SL [SA (lit "o"); of_nat o; SA v]
+  | VP t => SL [SA (lit "p"); SA t]
+  | VDD => SL [SA (lit "dd")]
+  end.
+
+Definition e_views (x : sx) : sx :=
+  let floats := dec_pairs (sx_nth 0 x) in
+  let env := dec_pairs (sx_nth 1 x) in
+  let ds := map (dec_decl floats) (sx_list (sx_nth 2 x)) in
+  let spec := sx_str (sx_nth 3 x) in
+  let ws := map sx_strs (sx_list (sx_nth 4 x)) in
+  match declare (float_of floats) (getenv_of env) ds [] [] with
+  | inr m => SL [SA (lit "declpanic")]
+  | inl (opts, args) =>
+    let spec' := match spec with [] => default_spec opts args | _ => spec end in
+    match compile opts args spec' with
+    | IOk i =>
+      let D := optinfo_of opts in
+      SL [SA (lit "ok"); of_bool (sane D); of_bool (no_dd_graph (i_graph i));
+          SL (map (fun w => match view D w with
+                            | Some u => SL (map enc_vs u)
+                            | None => SA (lit "none")
+                            end) ws)]
+    | _ => SL [SA (lit "specerr")]
+    end
+  end.
+
 (** dispatcher: (op payload) *)
 Definition e_dispatch (x : sx) : sx :=
   let op := sx_str (sx_nth 0 x) in
@@ -299,4 +328,5 @@ Definition e_dispatch (x : sx) : sx :=
   else if str_eqb op (lit "match") then e_match p
   else if str_eqb op (lit "run") then e_run p
   else if str_eqb op (lit "sentence") then e_sentence p
+  else if str_eqb op (lit "views") then e_views p
   else SL [SA (lit "unknown-op")].
